@@ -202,7 +202,7 @@ class Component(PrintObject):
     
     # Define super-sequences
     for sup_seq in list(self.sup_seqs.values()):
-      if not seq.dummy:
+      if not sup_seq.dummy:
         const = " ".join(seq.full_name for seq in sup_seq.seqs if not seq.dummy)
         outfile.write("sup-sequence %s = %s : %d\n" % (sup_seq.full_name, const, sup_seq.length))
     
